@@ -209,9 +209,9 @@ fn scenario(wire: Wire, family: Family, thorough: bool) -> BoxedStrategy<Scenari
 
 fn main() {
     timing::init();
-    // an emitter whose case has ended may keep retrying for its whole (scaled) retry budget, twice over
-    // (the batch in flight and the one queued behind it): ~8 s plus timeouts
-    collector::set_port_quarantine(std::time::Duration::from_secs(45));
+
+
+
     vcore::run(
         "C12",
         Level::FaultEnumeration,
